@@ -546,3 +546,38 @@ func smsHexList(samples []string) [][]byte {
 	}
 	return out
 }
+
+// smsReaderCase ties the WHOLE decoder written over the bufio model (Model/TpduReader.v unmarshal_reader, about which
+// C18_reader_independence and the C19 ..._any_reader theorems speak) to sms.Unmarshal behind a chunking reader: the input
+// is decoded (and re-encoded) through bufio-over-schedReader with the given schedule; the model evaluated ON THE SAME
+// SCHEDULE must give the same structure, observables and re-encoding, or the same outcome class.  Caller must have
+// imported Model.TpduReaderRun.  strict: an ordinary case; otherwise advisory.
+func smsReaderCase(r *Run, in []byte, sched []int, eofd bool, strict bool, label, failInput string) {
+	o := smsRunReader(&schedReader{data: append([]byte{}, in...), sched: append([]int{}, sched...), eofWithData: eofd})
+	sc := make([]string, len(sched))
+	for j, x := range sched {
+		sc[j] = fmt.Sprintf("%d%%nat", x)
+	}
+	r.Count(fmt.Sprintf("readerdec/%s/%x/%v/%v", label, in, sched, eofd), len(in) > 2, "whole decoder on a chunked reader, model on the same schedule")
+	emit := r.Advisory
+	if strict {
+		emit = r.Case
+	}
+	desc := fmt.Sprintf("reader decoder %s %x sched %v eof-with-data %v", label, in, sched, eofd)
+	if len(desc) > 300 {
+		desc = desc[:300] + "..."
+	}
+	if o.Class == 2 {
+		r.Fail("unmarshal-panic/reader/"+label, "sms.Unmarshal panicked behind a chunking reader", failInput,
+			"panic: "+o.PanicMsg, "an error or one of the eight TPDU structures")
+	}
+	args := fmt.Sprintf("%s %s %s", coqHex(in), coqList(sc), coqBool(eofd))
+	switch {
+	case o.Class == 0 && o.ValidType && o.EncClass == 0:
+		emit(desc, fmt.Sprintf("sms_reader_dec_is %s \"%s\" %s && sms_reader_enc_is %s %s", args, o.Name, o.Term, args, coqHex(o.Out)))
+	case o.Class == 0 && o.ValidType:
+		emit(desc, fmt.Sprintf("sms_reader_dec_is %s \"%s\" %s", args, o.Name, o.Term))
+	default:
+		emit(desc, fmt.Sprintf("sms_reader_class %s =? %d", args, o.Class))
+	}
+}
